@@ -113,6 +113,16 @@ def handle (op : String) (args : List String) : Option String :=
         let (out, o) := AgeModel.Stream.decrypt chacha chunkSize k payload
         s!"ok consulted={c} {outcome o} out={sum out}"
     | _, _ => "bad-args"
+  | "fdecf", [ids, file] =>   -- like fdec, but the source fails (non-EOF error) after the given bytes
+    some <| match parseList parseIdentity ids, unhex file with
+    | some ids, some file =>
+      let (r, c) := decryptInit concrete ids file
+      match r with
+      | .error e => s!"err {decErr e} consulted={c}"
+      | .ok (k, payload) =>
+        let (out, o) := AgeModel.Stream.decFrom chacha chunkSize k true 0 payload (payload.length + 1)
+        s!"ok consulted={c} {outcome o} out={sum out}"
+    | _, _ => "bad-args"
   | "fhdr", [tape, rs] =>   -- header only: file key, stanzas, tape bytes consumed
     some <| match unhex tape, parseList parseRecipient rs with
     | some tape, some rs =>
